@@ -41,7 +41,7 @@ ASSUMPTIONS = [
     "the .fai/.agp cache beside a FASTA input is not an output file of the run",
 ]
 
-_SENTINEL_KINDS = ["empty", "short", "long", "long", "same", "dangling_symlink", "symlink_elsewhere"]
+_SENTINEL_KINDS = ["empty", "short", "long", "long", "same", "same_size", "dangling_symlink", "symlink_elsewhere"]
 
 
 def plan(tier):
@@ -182,9 +182,14 @@ class Runner:
                 p = os.path.join(self.outd, fn)
                 kind = kinds[fn]
                 old = w.clock - 100
-                if kind in ("empty", "short", "long", "same"):
-                    # "same": left by an earlier identical run - still a collision
-                    data = {"empty": b"", "short": b"old\n", "long": C[fn] + b"#stale tail\n" * 40 + b"x" * 2048, "same": C[fn]}[kind]
+                if kind in ("empty", "short", "long", "same", "same_size"):
+                    # "same": left by an earlier identical run - still a collision;
+                    # "same_size": other content of exactly the new content's length
+                    other = bytes((c if c in b"\n\t, " else (c ^ 1 if 33 <= (c ^ 1) < 127 else c)) for c in C[fn])
+                    if other == C[fn] and other:
+                        other = b"#" + other[1:]
+                    data = {"empty": b"", "short": b"old\n", "long": C[fn] + b"#stale tail\n" * 40 + b"x" * 2048,
+                            "same": C[fn], "same_size": other}[kind]
                     with open(p, "wb") as fh:
                         fh.write(data)
                     w.stamp_path(p, old)
@@ -294,7 +299,7 @@ class Runner:
         if rng.random() < 0.5 and self.tier == "quick":
             return
         for _ in range(2 if self.tier == "quick" else 8):
-            kind = rng.choice(["enospc", "eio_write", "crash", "torn_write", "short_write"])
+            kind = rng.choice(["enospc", "eio_write", "crash", "torn_write", "short_write", "eio_open", "eio_open"])
             at = rng.randrange(nevents)
             self.wipe_out()
             ident = self.plant(S, kinds, C)
